@@ -328,8 +328,7 @@ def save (P : Params V) (L : Layout) (d : Doc V) : Doc V × Out SaveInfo :=
       ({ d with st := { pr.st2 with refs := refs.dropLast } }, .err)
     | some rows =>
       let st3 := commit P L d pr w refs rows
-      let (aw, bw) := widths refs
-      let info : SaveInfo := ⟨pr.xid, xpos, pr.size, aw, bw, rows⟩
+      let info : SaveInfo := ⟨pr.xid, xpos, pr.size, (widths refs).1, (widths refs).2, rows⟩
       match loadTrailer st3 d.tr.root pr.infoRef d.tr.prev with
       | .ok tr => (⟨st3, tr⟩, .ok info)
       | .err => (⟨st3, d.tr⟩, .err)
